@@ -114,6 +114,41 @@ class C20(Prop):
                              cold_cache=r.random() < 0.3, choices=None, direct=False)
         return c
 
+    def burst_case(self, follow, r):
+        """Every optimisation task fails at once, on the real pool: the shape in which clean-up code races with the
+        pool's own task hand-over (observation, not simulation)."""
+        c = workload.clone(follow)
+        c["mp_switch"] = True
+        c["args"]["num_processors"] = r.randint(2, 3)
+        c["args"]["num_clusters"] = 3
+        c["pool"] = dict(kind="real", sched_seed=0, bias="fifo", eager_pickle_p=1.0, cold_cache=False,
+                         choices=[], direct=False)
+        c["faults"] = [dict(kind="task_raise", cov="*", when="before", exc="ValueError", msg="injected burst fault",
+                            sticky=True)]
+        return c
+
+    def run_burst(self, c, n):
+        """n failing calls in a row; returns [(key, detail)]."""
+        for i in range(n):
+            outer_left = signal.getitimer(signal.ITIMER_REAL)[0]
+            old = signal.signal(signal.SIGALRM, _alarm)
+            signal.setitimer(signal.ITIMER_REAL, 60)
+            try:
+                out = runner.run_call(c, record=False)
+            except RealPoolHang:
+                runner.abandon_call()
+                return [("C20:hang_realpool_burst", f"call {i + 1} of a burst of calls whose optimisation tasks all fail at once "
+                                                    f"did not return within 60 s under the real pool")]
+            finally:
+                signal.setitimer(signal.ITIMER_REAL, 0)
+                signal.signal(signal.SIGALRM, old)
+                if outer_left > 0:
+                    signal.setitimer(signal.ITIMER_REAL, max(1.0, outer_left - 1))
+            f = judge_failed_call(out, "ValueError", "injected burst fault", real=True)
+            if f:
+                return f
+        return []
+
     def run_faulted(self, c, follow, fp_follow):
         """Returns (out, findings[(key, detail)])."""
         real = c["pool"]["kind"] == "real"
@@ -224,6 +259,15 @@ class C20(Prop):
                 rp = dict(kind="fault", case=freeze_decisions(c, out) if out is not None and c["pool"]["kind"] == "sim" else c,
                           follow=follow)
                 rec["findings"].append(finding("C20", key, f"[{tag} {c['faults']}] {detail}", rp))
+        # real-pool burst: all tasks of a round fail at once, several calls in a row
+        if r.random() < (0.6 if tier == "quick" else 0.5):
+            bc = self.burst_case(follow, r)
+            nb = 10 if tier == "quick" else 16
+            bf = safe(lambda: self.run_burst(bc, nb), rec, "burst") or []
+            rec.probe("real_pool_burst_calls", nb)
+            rec["faults"]["real_pool_all_tasks_fail_at_once"] = rec["faults"].get("real_pool_all_tasks_fail_at_once", 0) + nb
+            for key, detail in bf:
+                rec["findings"].append(finding("C20", key, detail, dict(kind="burst", case=bc, follow=follow, n=300)))
         # natural failures and invalid inputs
         for kind in ("no_donor", "partial_donor", "wrong_front"):
             c = workload.clone(base)
@@ -289,6 +333,9 @@ class C20(Prop):
         fo = runner.run_call(follow, record=False)
         fp_follow = fingerprint(fo)
         c = rp["case"]
+        if rp["kind"] == "burst":
+            f = self.run_burst(c, rp.get("n", 300))
+            return [finding("C20", key, detail, rp) for key, detail in f]
         if rp["kind"] == "fault":
             out, f = self.run_faulted(c, follow, fp_follow)
             f = f or []
